@@ -145,7 +145,7 @@ def mouseUpdate : List Line := [
   ⟨0, .rangeS, (.pair (.var "_") (.var "v4")), (.var "r.lastHits")⟩,
   ⟨1, .rangeS, (.pair (.var "_") (.var "v5")), (.var "v2")⟩,
   ⟨2, .ifS, (.bin "==" (.var "v4") (.var "v5")), .none⟩,
-  ⟨3, .continueS, (.var "outer_exit"), (.int 1)⟩,
+  ⟨3, .continueS, (.var "L"), (.int 1)⟩,
   ⟨1, .define, (.pair (.var "v6") (.var "v7")), (.arg (.arg (.call (.var "v4.w.HandleEvent")) (.lit "MouseLeave{}")) (.var "TargetPhase"))⟩,
   ⟨1, .ifS, (.bin "!=" (.var "v7") (.var "nil")), .none⟩,
   ⟨2, .returnS, (.var "v7"), .none⟩,
@@ -153,7 +153,7 @@ def mouseUpdate : List Line := [
   ⟨0, .rangeS, (.pair (.var "_") (.var "v8")), (.var "v2")⟩,
   ⟨1, .rangeS, (.pair (.var "_") (.var "v9")), (.var "r.lastHits")⟩,
   ⟨2, .ifS, (.bin "==" (.var "v8") (.var "v9")), .none⟩,
-  ⟨3, .continueS, (.var "outer_enter"), (.int 1)⟩,
+  ⟨3, .continueS, (.var "L"), (.int 1)⟩,
   ⟨1, .define, (.pair (.var "v10") (.var "v11")), (.arg (.arg (.call (.var "v8.w.HandleEvent")) (.lit "MouseEnter{}")) (.var "TargetPhase"))⟩,
   ⟨1, .ifS, (.bin "!=" (.var "v11") (.var "nil")), .none⟩,
   ⟨2, .returnS, (.var "v11"), .none⟩,
